@@ -898,6 +898,7 @@ class StorageWorld(StorageBase):
         return op
 
     def finish(self):
+        self.run.sim_time = self.fs.now - 1700000000.0
         if self._strict():
             for path in sorted(self.model):
                 E = self.model[path]
